@@ -114,11 +114,11 @@ class End(asyncio.Transport):
         data = bytes(data)
         if not data:
             return
-        if self.on_write is not None:
-            self.on_write(data)
-        if self.closing or self.closed:
+        if self.closing or self.closed:  # nothing of this reaches the wire (closed by us, or reset by the peer)
             self.discarded += len(data)
             return
+        if self.on_write is not None:
+            self.on_write(data)
         self.nwritten += len(data)
         if self.peer.closed:
             self.discarded += len(data)
